@@ -86,6 +86,12 @@ pub struct SimScenario {
     /// that protection changes nothing and the OS reports the old protection as equal to the new
     #[serde(default)]
     pub text_rwx: bool,
+    /// AArch64 Linux: the program was built with branch protection and its text is mapped with
+    /// PROT_BTI (guarded pages): an indirect call (`blr`) must land on a BTI landing pad.  A plain
+    /// `mprotect(RWX)` takes the guarded bit away (that is what the unchanged tree does); a request
+    /// that includes PROT_BTI keeps it.
+    #[serde(default)]
+    pub text_bti: bool,
     pub lifetimes: Vec<Lifetime>,
     /// free-text classes used for the distinct-case measure
     pub classes: Vec<String>,
@@ -879,6 +885,11 @@ fn finish(
         classes.push("text-already-rwx".into());
         classes.sort();
     }
+    let text_bti = variant == "aarch64_linux" && Rng::new(simos::rng::scenario_seed(seed, "S/text-bti", index)).chance(1, 4);
+    if text_bti {
+        classes.push("text-bti-guarded".into());
+        classes.sort();
+    }
     SimScenario {
         engine: "S".into(),
         profile: profile.into(),
@@ -895,6 +906,7 @@ fn finish(
         pitch: l.pitch,
         immutable_after_text: l.immutable_after_text,
         text_rwx,
+        text_bti,
         lifetimes,
         classes,
     }
